@@ -25,7 +25,7 @@ import (
 
 // ---------------------------------------------------------------- error values
 
-// c11Leaf: c<peer>|cnone CoordinatorError, m[<peer>] CommunicationError, t[<peer>+…] tss.Error with culprits,
+// c11Leaf: P<fault><peer> the error of the real Libp2pCommunication.Broadcast, c<peer>|cnone CoordinatorError, m[<peer>] CommunicationError, t[<peer>+…] tss.Error with culprits,
 // u tss.Error with a culprit id that is no peer id, s SubsetError, o an untyped error, n nil.
 func c11Leaf(code string, self peer.ID) error {
 	switch code[0] {
@@ -52,6 +52,10 @@ func c11Leaf(code string, self peer.ID) error {
 		return tsslib.NewError(errors.New("bad share"), "signing", 3, nil, tsslib.NewPartyID("not-a-peer-id", "x", common.CreatePartyID("x").KeyInt()))
 	case 's':
 		return &tss.SubsetError{Peer: self}
+	case 'P':
+		// what the repository's own transport adapter returns when sending to <peer> breaks at point <fault>
+		// (a no address, d dial, n NewStream, w write on a fresh stream, c write on the session's cached stream)
+		return c07SendFault(self, c07Peer(code[2:]), code[1], "s")
 	case 'o':
 		return errors.New("watchdog")
 	case 'n':
@@ -152,6 +156,8 @@ type c11Env struct {
 	short       bool          // `~`: CoordinatorTimeout is short until an election starts
 	mu          sync.Mutex
 	lb          time.Time     // a moment known to precede the creation of the election's timer
+	elect       chan struct{} // closed when an election subscribes to the Select messages (election started)
+	electOnce   sync.Once
 	over        chan struct{} // closed when the election's Select subscription is released (election over)
 	overOnce    sync.Once
 	firstSeen   bool
@@ -188,8 +194,11 @@ func (e *c11Env) onEvent(ev c07Event) {
 			e.co.CoordinatorTimeout = time.Hour
 			e.setLB()
 		}
-	case ev.kind == "sub" && ev.typ == comm.CoordinatorSelectMsg && e.short:
-		e.co.CoordinatorTimeout = time.Hour
+	case ev.kind == "sub" && ev.typ == comm.CoordinatorSelectMsg:
+		if e.short {
+			e.co.CoordinatorTimeout = time.Hour
+		}
+		e.electOnce.Do(func() { close(e.elect) })
 	case ev.kind == "unsub" && ev.typ == comm.CoordinatorSelectMsg:
 		e.overOnce.Do(func() { close(e.over) })
 	}
@@ -207,7 +216,7 @@ func c11NewEnv(self peer.ID, t int, sid string, holders []peer.ID, retryable boo
 	}
 	co := tss.NewCoordinator(h, cm, elector.VerifC11NewFactory(h, cm, cfg))
 	co.CoordinatorTimeout, co.TssTimeout, co.InitiatePeriod = time.Hour, time.Hour, time.Hour
-	e := &c11Env{cm: cm, co: co, sid: sid, self: self, holders: holders, bullyWait: cfg.BullyWaitTime, over: make(chan struct{})}
+	e := &c11Env{cm: cm, co: co, sid: sid, self: self, holders: holders, bullyWait: cfg.BullyWaitTime, over: make(chan struct{}), elect: make(chan struct{})}
 	cm.hook = e.onEvent
 	e.setLB()
 	e.proc = &c07Proc{real: c07Signing("ecdsa", sid, h, cm, holders, t), retryable: retryable, started: make(chan struct{}, 16)}
@@ -457,6 +466,9 @@ func c11ErrClass(err error) string {
 	}
 }
 
+// c11SilentTimeout: the CoordinatorTimeout of the first attempt when the static coordinator stays silent
+const c11SilentTimeout = 30 * time.Millisecond
+
 // c11ShortTimeout: the CoordinatorTimeout of the `~` scenarios (TssTimeout stays at one hour)
 const c11ShortTimeout = 40 * time.Millisecond
 
@@ -470,6 +482,7 @@ type c11First struct {
 	e        *c11Env
 	c        peer.ID // static coordinator
 	silent   bool
+	foreign  string // `silent:<peer>`: while the coordinator is silent, <peer> keeps sending initiate messages
 	withFail bool
 	castMark int
 	failed   chan struct{}
@@ -479,7 +492,7 @@ type c11First struct {
 // until cancelled).
 func (e *c11Env) prepareFirst(first, claimantArg string, c peer.ID, later func(context.Context) error) *c11First {
 	cm := e.cm
-	f := &c11First{e: e, c: c, silent: first == "silent", withFail: strings.HasPrefix(first, "f:"), failed: make(chan struct{})}
+	f := &c11First{e: e, c: c, silent: strings.HasPrefix(first, "silent"), foreign: strings.TrimPrefix(strings.TrimPrefix(first, "silent"), ":"), withFail: strings.HasPrefix(first, "f:"), failed: make(chan struct{})}
 	code := strings.TrimPrefix(first, "f:")
 	setMarks := func() { // everything subscribed / broadcast so far belongs to attempt 1
 		cm.mu.Lock()
@@ -509,7 +522,7 @@ func (e *c11Env) prepareFirst(first, claimantArg string, c peer.ID, later func(c
 	if f.silent {
 		e.proc.outcomes = []func(context.Context) error{later, later}
 		e.setSilent()
-		e.co.CoordinatorTimeout = 30 * time.Millisecond
+		e.co.CoordinatorTimeout = c11SilentTimeout
 	} else {
 		e.proc.outcomes = []func(context.Context) error{firstRun, later, later}
 	}
@@ -522,8 +535,44 @@ func (e *c11Env) prepareFirst(first, claimantArg string, c peer.ID, later func(c
 func (f *c11First) drive(done <-chan struct{}, t int) (run1 string, runMark int, note string) {
 	e, cm, sid := f.e, f.e.cm, f.e.sid
 	switch {
-	case f.silent:
+	case f.silent && f.foreign == "":
 		// nothing to deliver: the static coordinator never speaks
+	case f.silent:
+		// the static coordinator never speaks, but another peer keeps sending initiate messages (they are ignored and must
+		// not postpone the time-out): paced well below CoordinatorTimeout, until the re-election is OBSERVED to start. The
+		// pacing has no influence on what the unchanged code does; the bound (many time-outs long, stretched 5× / 25× on
+		// the re-runs) only ends the scenario on a tree where the time-out never fires while such messages arrive.
+		from := c07Peer(f.foreign)
+		stop := make(chan struct{})
+		go func() {
+			select {
+			case <-e.elect:
+			case <-done:
+			}
+			close(stop)
+		}()
+		deadline := time.Now().Add(8 * c11SilentTimeout * c07Scale())
+	foreign:
+		for {
+			select {
+			case <-stop:
+				break foreign
+			default:
+			}
+			if time.Now().After(deadline) {
+				c07Anomaly()
+				note += ";timeout-postponed-by-foreign-initiates"
+				break
+			}
+			msg := &comm.WrappedMessage{MessageType: comm.TssInitiateMsg, SessionID: sid, Payload: []byte{}, From: from}
+			if r := cm.deliverMsg(msg, stop, true); r != "ok" {
+				break
+			}
+			select {
+			case <-stop:
+			case <-time.After(c11SilentTimeout / 6):
+			}
+		}
 	case f.c == e.self:
 		if r := cm.waitUntil(c07Patience(), done, func() bool { return cm.subscriber(sid, comm.TssReadyMsg) != nil }); r != "ok" {
 			note = ";first-" + r
@@ -629,7 +678,7 @@ func init() {
 			return "noholders"
 		}
 		c := ord[0]
-		silent := a[5] == "silent"
+		silent := strings.HasPrefix(a[5], "silent")
 		if silent && c == self {
 			return "selfcoord"
 		}
@@ -662,6 +711,11 @@ func genC11(g *G) {
 	defer genC11Real(g)
 	// ---- conc aggregation: every pool of ≤ 3 tasks over the leaf classes, and two-level nestings
 	leaves := []string{"o", "n", "t3", "c2", "s", "m"}
+	// what the repository's transport adapter itself returns for every point at which sending to a peer can break
+	for _, f := range []string{"a", "d", "n", "w", "c"} {
+		g.Emit("pool", "[P"+f+"3]")
+		g.Emit("pool", "[[o,[P"+f+"5]],n]")
+	}
 	c07Seqs(leaves, 3, func(seq []string) {
 		if len(seq) > 0 {
 			g.Emit("pool", "["+strings.Join(seq, ",")+"]")
@@ -702,10 +756,16 @@ func genC11(g *G) {
 			if len(others) > 2 {
 				causes = append(causes, "t"+others[2], "c"+others[2])
 			}
+			for fi, f := range []string{"a", "d", "n", "w", "c"} {
+				causes = append(causes, "P"+f+others[(fi+si)%len(others)])
+			}
 			for ki, k := range causes {
 				shapes := c11Shapes(k)
-				if !g.Thorough() && (ci+si+ki)%2 == 1 {
+				if !g.Thorough() && ((ci+si+ki)%2 == 1 || k[0] == 'P') {
 					shapes = shapes[:3]
+				}
+				if !g.Thorough() && k[0] == 'P' {
+					shapes = shapes[(ci+si)%3 : (ci+si)%3+1]
 				}
 				for _, sh := range shapes {
 					arr := append([]string{}, others...)
@@ -831,14 +891,14 @@ func genC11(g *G) {
 			if ord[1] == self {
 				o2 = c07Tok(ord[2%len(ord)])
 			}
-			firsts := []string{"t" + o1, "t" + o1 + "+" + o2, "m", "c" + o1, "s", "o", "u", "silent",
+			firsts := []string{"t" + o1, "t" + o1 + "+" + o2, "m", "c" + o1, "s", "o", "u", "silent", "silent:" + o1,
 				"f:t" + o1, "f:m", "f:c" + o2, "f:s", "f:o"}
 			for fi, f := range firsts {
 				for _, retryable := range []string{"1", "0"} {
 					if retryable == "0" && !g.Thorough() && (fi+ci)%3 != 0 {
 						continue
 					}
-					if f == "silent" && self == ord[0] {
+					if strings.HasPrefix(f, "silent") && self == ord[0] {
 						continue
 					}
 					claimant := "-"
